@@ -10,30 +10,40 @@ import (
 	"verifharness/internal/h"
 )
 
-// C14: sequence function calls. Stimulus = one row dumped by SeqFuns.tla:
+// C14: sequence function calls. Stimulus = one row printed by SeqFuns.tla:
 //
-//	{"id":1,"s":[1,1,0],"item":1,"st":0,"en":3,"fe":false,"cnt":-1,"key":"id","test":"eql"}
+//	{"id":1,"fn":"remove","a":[1,1,0],"b":[],"item":1,"kw":{"st":0,"en":3,"fe":false,"cnt":-1,"key":"id","test":"eql","st2":-1,"en2":-1}}
 //
-// Event: {"t":1,"res":{"list":{"find":"1","position":"0",...},"vector":{...},"string":{...}}} (printed results)
+// The call is rendered for every sequence type the function applies to; the event carries the projected result
+// (or the condition class) per type: {"t":1,"res":{"list":{"src":"(remove ...)","st":"","v":{...}}, ...}}
 func init() { drivers["c14"] = c14 }
 
-type c14Case struct {
-	ID   int    `json:"id"`
-	S    []int  `json:"s"`
-	Item int    `json:"item"`
+type c14KW struct {
 	St   int    `json:"st"`
 	En   int    `json:"en"`
 	Fe   bool   `json:"fe"`
 	Cnt  int    `json:"cnt"`
 	Key  string `json:"key"`
 	Test string `json:"test"`
+	St2  int    `json:"st2"`
+	En2  int    `json:"en2"`
 }
 
-var c14Chars = []string{"a", "b", "c", "d", "e", "f", "g", "h", "i", "j"}
+type c14Row struct {
+	ID   int    `json:"id"`
+	Fn   string `json:"fn"`
+	A    []int  `json:"a"`
+	B    []int  `json:"b"`
+	Item int    `json:"item"`
+	KW   c14KW  `json:"kw"`
+}
+
+// element x as a character: b, c, d, ... (the parity of the code equals the parity of x)
+func c14Ch(x int) string { return string(rune(98 + x)) }
 
 func c14Elem(kind string, x int) string {
 	if kind == "string" {
-		return "#\\" + c14Chars[x]
+		return "#\\" + c14Ch(x)
 	}
 	return fmt.Sprint(x)
 }
@@ -42,7 +52,7 @@ func c14Lit(kind string, v []int) string {
 	parts := make([]string, len(v))
 	for i, x := range v {
 		if kind == "string" {
-			parts[i] = c14Chars[x]
+			parts[i] = c14Ch(x)
 		} else {
 			parts[i] = fmt.Sprint(x)
 		}
@@ -56,53 +66,166 @@ func c14Lit(kind string, v []int) string {
 	case "vector":
 		return "(vector " + strings.Join(parts, " ") + ")"
 	}
-	return "\"" + strings.Join(parts, "") + "\""
+	return "(copy-seq \"" + strings.Join(parts, "") + "\")"
+}
+
+var c14ListOnly = map[string]bool{"member": true, "assoc": true, "rassoc": true, "append": true, "union": true,
+	"intersection": true, "set-difference": true, "subsetp": true}
+var c14NoString = map[string]bool{"map1+": true, "map+": true, "reduce-": true, "sort": true, "stable-sort": true, "merge": true}
+
+func c14Kinds(r *c14Row) []string {
+	if c14ListOnly[r.Fn] {
+		return []string{"list"}
+	}
+	if c14NoString[r.Fn] || r.KW.Key == "inc" {
+		return []string{"list", "vector"}
+	}
+	return []string{"list", "vector", "string"}
+}
+
+func c14Call(kind string, r *c14Row) string {
+	kw := r.KW
+	a, b := c14Lit(kind, r.A), c14Lit(kind, r.B)
+	item := c14Elem(kind, r.Item)
+	ks := ""
+	if kw.St >= 0 {
+		ks += fmt.Sprintf(" :start %d", kw.St)
+	}
+	if kw.En >= 0 {
+		ks += fmt.Sprintf(" :end %d", kw.En)
+	}
+	if kw.Fe {
+		ks += " :from-end t"
+	}
+	if kw.Cnt >= 0 {
+		ks += fmt.Sprintf(" :count %d", kw.Cnt)
+	}
+	if kw.Key == "inc" {
+		ks += " :key #'1+"
+	}
+	if kw.Test == "lt" {
+		if kind == "string" {
+			ks += " :test #'char<"
+		} else {
+			ks += " :test #'<"
+		}
+	}
+	pred := "#'oddp"
+	if kind == "string" {
+		pred = "(lambda (c) (oddp (char-code c)))"
+	}
+	typ := map[string]string{"list": "'list", "vector": "'vector", "string": "'string"}[kind]
+	sortKey := "#'< :key (lambda (x) (- x (mod x 10)))" // the tens; (floor x 10) would return two values
+	base := strings.TrimSuffix(strings.TrimSuffix(r.Fn, "-if-not"), "-if")
+	switch {
+	case strings.HasSuffix(r.Fn, "-if") || strings.HasSuffix(r.Fn, "-if-not"):
+		switch base {
+		case "substitute":
+			return fmt.Sprintf("(%s %s %s %s%s)", r.Fn, c14Elem(kind, 3), pred, a, ks)
+		default:
+			return fmt.Sprintf("(%s %s %s%s)", r.Fn, pred, a, ks)
+		}
+	}
+	switch r.Fn {
+	case "find", "position", "count", "remove", "delete":
+		return fmt.Sprintf("(%s %s %s%s)", r.Fn, item, a, ks)
+	case "substitute":
+		return fmt.Sprintf("(substitute %s %s %s%s)", c14Elem(kind, 3), item, a, ks)
+	case "remove-duplicates", "reverse", "nreverse", "length", "copy-seq", "subseq-":
+		return fmt.Sprintf("(%s %s%s)", r.Fn, a, ks)
+	case "subseq":
+		if kw.En >= 0 {
+			return fmt.Sprintf("(subseq %s %d %d)", a, kw.St, kw.En)
+		}
+		return fmt.Sprintf("(subseq %s %d)", a, kw.St)
+	case "fill":
+		return fmt.Sprintf("(fill %s %s%s)", a, item, ks)
+	case "search", "mismatch", "replace":
+		k2 := ""
+		if kw.St >= 0 {
+			k2 += fmt.Sprintf(" :start1 %d", kw.St)
+		}
+		if kw.En >= 0 {
+			k2 += fmt.Sprintf(" :end1 %d", kw.En)
+		}
+		if kw.St2 >= 0 {
+			k2 += fmt.Sprintf(" :start2 %d", kw.St2)
+		}
+		if kw.En2 >= 0 {
+			k2 += fmt.Sprintf(" :end2 %d", kw.En2)
+		}
+		if kw.Fe {
+			k2 += " :from-end t"
+		}
+		return fmt.Sprintf("(%s %s %s%s)", r.Fn, a, b, k2)
+	case "every", "some", "notany", "notevery":
+		return fmt.Sprintf("(%s %s %s)", r.Fn, pred, a)
+	case "map1+":
+		if kind == "list" {
+			return fmt.Sprintf("(mapcar #'1+ %s)", a)
+		}
+		return fmt.Sprintf("(map %s #'1+ %s)", typ, a)
+	case "map+":
+		if kind == "list" {
+			return fmt.Sprintf("(mapcar #'+ %s %s)", a, b)
+		}
+		return fmt.Sprintf("(map %s #'+ %s %s)", typ, a, b)
+	case "reduce-":
+		fe := ""
+		if kw.Fe {
+			fe = " :from-end t"
+		}
+		return fmt.Sprintf("(reduce #'- %s :initial-value %d%s)", a, r.Item, fe)
+	case "concatenate":
+		return fmt.Sprintf("(concatenate %s %s %s)", typ, a, b)
+	case "append", "union", "intersection", "set-difference", "subsetp":
+		return fmt.Sprintf("(%s %s %s)", r.Fn, a, b)
+	case "member":
+		return fmt.Sprintf("(member %s %s%s)", item, a, ks)
+	case "assoc", "rassoc":
+		pairs := make([]string, len(r.A))
+		for i, e := range r.A {
+			if r.Fn == "assoc" {
+				pairs[i] = fmt.Sprintf("(cons %d %d)", e, i)
+			} else {
+				pairs[i] = fmt.Sprintf("(cons %d %d)", i, e)
+			}
+		}
+		alist := "nil"
+		if len(pairs) > 0 {
+			alist = "(list " + strings.Join(pairs, " ") + ")"
+		}
+		if r.Fn == "assoc" {
+			return fmt.Sprintf("(cdr (assoc %s %s%s))", item, alist, ks)
+		}
+		return fmt.Sprintf("(car (rassoc %s %s%s))", item, alist, ks)
+	case "sort", "stable-sort":
+		return fmt.Sprintf("(%s %s %s)", r.Fn, a, sortKey)
+	case "merge":
+		return fmt.Sprintf("(merge %s %s %s %s)", typ, a, b, sortKey)
+	}
+	panic("unknown function " + r.Fn)
 }
 
 func c14(args []string) {
 	out := h.NewOut()
 	defer out.Flush()
 	s := slip.NewScope()
-	show := func(o h.Outcome) string {
-		if !o.OK() {
-			return "ERR:" + o.Class
-		}
-		return slip.ObjectString(o.Val)
-	}
 	h.Lines(func(line []byte) {
-		var c c14Case
-		if err := json.Unmarshal(line, &c); err != nil {
+		var r c14Row
+		if err := json.Unmarshal(line, &r); err != nil {
 			panic(err)
 		}
 		res := h.V{}
-		for _, kind := range []string{"list", "vector", "string"} {
-			if kind == "string" && (c.Key != "id" || c.Test != "eql") {
-				continue
+		for _, kind := range c14Kinds(&r) {
+			src := c14Call(kind, &r)
+			o := h.Eval(s, src)
+			cell := h.V{"src": src, "st": o.Class, "fault": o.Fault(), "msg": fmt.Sprintf("%.100s", o.Msg)}
+			if o.OK() {
+				cell["v"] = h.Project(o.Val)
 			}
-			kw := fmt.Sprintf(" :start %d :end %d", c.St, c.En)
-			if c.Fe {
-				kw += " :from-end t"
-			}
-			if c.Key == "inc" {
-				kw += " :key #'1+"
-			}
-			if c.Test == "lt" {
-				kw += " :test #'<"
-			}
-			kwc := kw
-			if c.Cnt >= 0 {
-				kwc += fmt.Sprintf(" :count %d", c.Cnt)
-			}
-			item, lit := c14Elem(kind, c.Item), c14Lit(kind, c.S)
-			res[kind] = h.V{
-				"find":       show(h.Eval(s, fmt.Sprintf("(find %s %s%s)", item, lit, kw))),
-				"position":   show(h.Eval(s, fmt.Sprintf("(position %s %s%s)", item, lit, kw))),
-				"count":      show(h.Eval(s, fmt.Sprintf("(count %s %s%s)", item, lit, kw))),
-				"remove":     show(h.Eval(s, fmt.Sprintf("(remove %s %s%s)", item, lit, kwc))),
-				"substitute": show(h.Eval(s, fmt.Sprintf("(substitute %s %s %s%s)", c14Elem(kind, 9), item, lit, kwc))),
-				"kw":         kwc,
-			}
+			res[kind] = cell
 		}
-		out.Emit(h.V{"t": c.ID, "res": res})
+		out.Emit(h.V{"t": r.ID, "res": res})
 	})
 }
